@@ -183,6 +183,10 @@ func compareStruct(sv reflect.Value, e Exp, what string) error {
 type docBuilder struct {
 	sb    strings.Builder
 	feats map[string]bool
+	// blankStyle: how a hand-written blank-separated list is laid out (0: one blank between
+	// elements; 1 two blanks; 2 a tab; 3 folded with the continuation aligned under the first
+	// element; 4 folded behind a tab; 5 two blanks and a fold indented by two)
+	blankStyle int
 }
 
 func newDocBuilder() *docBuilder { return &docBuilder{feats: map[string]bool{}} }
@@ -227,7 +231,23 @@ func (b *docBuilder) commaListTrailing(name string, items []string, foldMask int
 }
 
 func (b *docBuilder) spaceList(name string, items []string) {
-	b.line(name + ": " + strings.Join(items, " "))
+	if b.blankStyle == 0 || len(items) < 2 {
+		b.line(name + ": " + strings.Join(items, " "))
+		return
+	}
+	seps := [][]string{{" "}, {"  "}, {"\t"}, {" ", "\n" + strings.Repeat(" ", len(name)+2)}, {" ", "\n\t"}, {"  ", "\n  "}}[b.blankStyle%6]
+	var sb strings.Builder
+	for i, it := range items {
+		if i > 0 {
+			sb.WriteString(seps[(i-1)%len(seps)])
+		}
+		sb.WriteString(it)
+	}
+	b.feats["space-list-wide-separators"] = true
+	if strings.Contains(sb.String(), "\n") {
+		b.feats["folded-space-list"] = true
+	}
+	b.line(name + ": " + sb.String())
 }
 
 // spaceListFolded renders "a b c" or folded "a b\n c" (what dpkg-genchanges does to a
